@@ -22,7 +22,7 @@ prop(
     level_text="Exploration: millions of operation histories on the real segment tree, each ended by a complete probe of all "
                "ranges, judged by an independent left-to-right fold over a plain array. The free monoid with the full "
                "transformation monoid as modifiers makes any wrong order, lost push or double application observable; a "
-               "bounded scope (n<=5, all op sequences to a stated length) is enumerated completely. Held-on-observed, not a proof. Since the seeded rounds 3-4 also: a modifier of zero size (FlipCount), sleeper histories (exactly 2^8 / 2^16 (+-1) non-querying operations between two identical queries), trees of 2^20+1 .. 2^23+5 elements incl. a non-commutative algebra with queries ragged at both ends. Since the seeded rounds 5-6 also: padded items of several hundred bytes and items whose operations call back into another tree, Min / Max over key+payload elements ordered by the key only (ties everywhere: the left-to-right merge keeps the last extremal element), a pair combinator over different element types; in the thorough tier a gap of 2^32 (-1, +0, +1) operations between two identical queries. Since the seeded round 7 also: SumAdd over the rings Z/2, Z/6, Z/12 and Z/256 (a modifier times a node length can vanish although the modifier does not), Sum over a concatenation type (associative, not commutative).",
+               "bounded scope (n<=5, all op sequences to a stated length) is enumerated completely. Held-on-observed, not a proof. Since the seeded rounds 3-4 also: a modifier of zero size (FlipCount), sleeper histories (exactly 2^8 / 2^16 (+-1) non-querying operations between two identical queries), trees of 2^20+1 .. 2^23+5 elements incl. a non-commutative algebra with queries ragged at both ends. Since the seeded rounds 5-6 also: padded items of several hundred bytes and items whose operations call back into another tree, Min / Max over key+payload elements ordered by the key only (ties everywhere: the left-to-right merge keeps the last extremal element), a pair combinator over different element types; in the thorough tier a gap of 2^32 (-1, +0, +1) operations between two identical queries. Since the seeded round 7 also: SumAdd over the rings Z/2, Z/6, Z/12 and Z/256 (a modifier times a node length can vanish although the modifier does not), Sum over a concatenation type (associative, not commutative). Since the seeded round 8 also: a lazy item over the unit modifier (touch counts) paired with the plain built-in items in a Combinator.",
     level_note="Trusted: the harness item algebras (law-abiding by construction, identity self-checked), the shadow-array "
                "semantics and the fold oracle; rustc. Not covered: algebras outside the list, histories longer than 48 ops "
                "before the probe, sizes above 4097.",
@@ -65,7 +65,7 @@ prop(
     level_text="Exploration: tens of millions of boundary searches on the real segment tree after random and enumerated "
                "histories (searches issued while modifications are still pending), each answer compared with a linear scan, "
                "and each aggregate shown to the predicate compared with the fold of precisely the range it must represent "
-               "(exact for the free monoid, where the word length identifies the range). Held-on-observed, not a proof. Since the seeded rounds 3-4 also: zero-sized modifiers, sleeper histories, huge trees with searches at the two ends, re-entrant predicates (the predicate searches a second tree) and a logical call budget that turns a non-terminating search into a verdict. Since the seeded rounds 5-6 also: padded and re-entrant items, a Combinator in which one half's pending state never cancels (a count of the modifications that covered an element, next to a range add whose sum returns to zero). Since the seeded round 7 also: the ring and concatenation algebras of C01 under the searches.",
+               "(exact for the free monoid, where the word length identifies the range). Held-on-observed, not a proof. Since the seeded rounds 3-4 also: zero-sized modifiers, sleeper histories, huge trees with searches at the two ends, re-entrant predicates (the predicate searches a second tree) and a logical call budget that turns a non-terminating search into a verdict. Since the seeded rounds 5-6 also: padded and re-entrant items, a Combinator in which one half's pending state never cancels (a count of the modifications that covered an element, next to a range add whose sum returns to zero). Since the seeded round 7 also: the ring and concatenation algebras of C01 under the searches. Since the seeded round 8 also: the unit-modifier pairs of C01 under the searches.",
     level_note="Trusted: monotonicity of the generated predicates (by construction), the shadow array and scan oracle. Not "
                "covered: non-monotone predicates and items whose Default is not the merge identity (outside the property).",
     runs=[
@@ -101,13 +101,15 @@ prop(
     "C03",
     level="exploration",
     technique="reference-model runtime monitor + structural invariant at quiescence: pool of real treaps shadowed by Vecs, "
-              "read-only walk of the public node fields after every operation, harness-controlled priorities",
+              "read-only walk of the public node fields after every operation, harness-controlled priorities; the same random "
+              "histories under the Miri interpreter (undefined behaviour on items that own heap memory)",
+    custom=custom.c03_custom,
     level_text="Exploration: hundreds of thousands of random histories (split_at/split_by/merge/insert/remove/first/last/"
                "collect/size with non-commuting lazy modifications attached at roots of whole treaps and of split-out "
                "parts) under six priority regimes including ties and monotone priorities, plus a bounded scope (n<=5 "
                "elements x every weak ordering of the priorities x every op sequence to a stated length) enumerated "
                "completely. Every API result is compared with a Vec model and, after every operation, a walk that does "
-               "not perturb pending state checks the effective sequence and the stored aggregate of every node. Since the seeded rounds 3-4 also: items inserted while they still carry a pending modification, and path-shaped treaps 2100..3400 nodes deep (priorities through the public fields) under the same operations with the complete walk after each. Since the seeded rounds 5-6 also: split_by predicates that split / merge / collect an independent treap of the same thread while the outer split runs (nested once more inside), histories handed to a fresh thread every few operations (treaps with pending modifications included), balanced and path-shaped deep treaps with root attachments and boundary cuts. Since the seeded round 7 also: an item whose lazy modification depends on the position (add an arithmetic progression: the right child receives it advanced by the size of the left subtree + 1).",
+               "not perturb pending state checks the effective sequence and the stored aggregate of every node. Since the seeded rounds 3-4 also: items inserted while they still carry a pending modification, and path-shaped treaps 2100..3400 nodes deep (priorities through the public fields) under the same operations with the complete walk after each. Since the seeded rounds 5-6 also: split_by predicates that split / merge / collect an independent treap of the same thread while the outer split runs (nested once more inside), histories handed to a fresh thread every few operations (treaps with pending modifications included), balanced and path-shaped deep treaps with root attachments and boundary cuts. Since the seeded round 7 also: an item whose lazy modification depends on the position (add an arithmetic progression: the right child receives it advanced by the size of the left subtree + 1). Since the seeded round 8 also: 14 (6 x 40 in thorough) of the random histories under Miri: a double drop, a use after free or a read of a moved-out item inside the library is reported as undefined behaviour with its stack.",
     level_note="Trusted: the two harness item types (affine-sum and free-word items, lawful by construction), the Vec model, "
                "the walk. Not covered: items that break the laws, treaps larger than ~60 elements in this mode (C16 covers size).",
     runs=[
@@ -143,7 +145,7 @@ prop(
                "grow-shrink-grow) up to 2^19 (quick) / 2^22 (thorough) elements with the library's own priorities; at staged "
                "checkpoints (n = 16, 64, 256, ... and after each phase) every parent-child edge is checked for heap order in "
                "one consistent direction and the height against 5*log2(n+1)+20. A degenerate priority source is reported "
-               "at n=64..256, before recursion depth matters. Since the seeded rounds 3-4 also: stride scan (Cartesian-tree screening of every creation stride <= 4096 over 4 million observed priorities, the three worst strides built for real). Since the seeded rounds 5-6 also: power-of-two strides, sequential worker threads, and the priority values 0 and u32::MAX themselves: located in the generator streams of the next threads of the process (calibrated model of the per-thread generator), the thread advanced to just before them and 3000 sorted appends built around them, the value confirmed in the treap. Since the seeded round 7 also: one treap cut into 1500 parts with an element inserted into each and gathered again, repetition of the priority stream (a 64-bit coincidence of consecutive values) with its lag added to the stride scan.",
+               "at n=64..256, before recursion depth matters. Since the seeded rounds 3-4 also: stride scan (Cartesian-tree screening of every creation stride <= 4096 over 4 million observed priorities, the three worst strides built for real). Since the seeded rounds 5-6 also: power-of-two strides, sequential worker threads, and the priority values 0 and u32::MAX themselves: located in the generator streams of the next threads of the process (calibrated model of the per-thread generator), the thread advanced to just before them and 3000 sorted appends built around them, the value confirmed in the treap. Since the seeded round 7 also: one treap cut into 1500 parts with an element inserted into each and gathered again, repetition of the priority stream (a 64-bit coincidence of consecutive values) with its lag added to the stride scan. Since the seeded round 8 also: 40 000 short-lived threads contributing the first node each creates, through four entry points (TreapNode::new, from_item, Treap::default + insert_at, Treap::new + insert_at).",
     level_note="Trusted: the iterative walk. The bound is probabilistic for a correct treap (failure < 1e-15). A process death "
                "(stack exhaustion) is mapped to a violation for this property. Not covered: histories outside the driven orders.",
     runs=[
@@ -169,7 +171,7 @@ prop(
                "Sieve is built and all of min_prime, is_prime, primes and factorize(n) for every n<=N are compared with "
                "trial division, so every position of N relative to primes and prime squares is hit; limits adjacent to "
                "p, p^2, p*q up to 10^6 and the limits 10^6 (and 10^7) are compared element by element with an independent "
-               "sieve of Eratosthenes. Since the seeded rounds 3-4 also: every limit k*1024 / k*4096 / k*1000 / k*10000, a limit beyond 2^24, Iterator-call scripts on factorize. Since the seeded rounds 5-6 also: a sieve of 223 092 870 + 641 entries (and 2^28 + 57 in thorough): is_prime and the whole prime list against a bit sieve and min_prime a prime divisor for every n, factorize and exact min_prime against trial division on every prime power of the primes below 1000, the square-free products of the first 13 primes (nine distinct factors), smooth numbers, semiprimes at the square root, both table ends, neighbourhoods of powers of two and 40 000 random n. Since the seeded round 7 also: nth(k) / skip(k) / step_by(k + 1) exactly for every k on the 700 000 numbers rich in distinct primes, 3-5 million factorisations in random order.",
+               "sieve of Eratosthenes. Since the seeded rounds 3-4 also: every limit k*1024 / k*4096 / k*1000 / k*10000, a limit beyond 2^24, Iterator-call scripts on factorize. Since the seeded rounds 5-6 also: a sieve of 223 092 870 + 641 entries (and 2^28 + 57 in thorough): is_prime and the whole prime list against a bit sieve and min_prime a prime divisor for every n, factorize and exact min_prime against trial division on every prime power of the primes below 1000, the square-free products of the first 13 primes (nine distinct factors), smooth numbers, semiprimes at the square root, both table ends, neighbourhoods of powers of two and 40 000 random n. Since the seeded round 7 also: nth(k) / skip(k) / step_by(k + 1) exactly for every k on the 700 000 numbers rich in distinct primes, 3-5 million factorisations in random order. Since the seeded round 8 also: odd limits just above 2^24 (not representable in single precision), two factorisation iterators consumed in turns (zip, merge walk).",
     level_note="Trusted: the engine's trial division and bit-sieve (cross-checked against each other and against pi(x) at "
                "nine points on every run; a failed self-check is inconclusive). Not covered: limits above 10^7.",
     runs=[
@@ -250,7 +252,7 @@ prop(
                "in both argument orders, binomial worst case through roots and through deepest elements, stars, "
                "caterpillars, random with interleaved lookups) up to 2^17 (quick) / 4*10^6 (thorough) elements with staged "
                "depth checkpoints after 64, 256, 1024, ... unions so that a degenerating forest is reported long before "
-               "recursion depth matters. Since the seeded rounds 3-4 also: sleeper histories (a vertex looked up, exactly 2^8 / 2^16 (+-1) unions / resets that never mention it or its residue class mod 8, looked up again), clone_from between structures of different sizes, small components at both ends of the index range up to n = 1.5 million, reset to large sizes. Since the seeded rounds 5-6 also: absorb-after-lookup, repeated resets, five construction routes for every adversarial order (new, reset from one element, growth inside spare capacity, shrinking, reset after use), size / check on the deepest never-looked-up elements before any lookup, ladders of ~30 constructions with climbing sizes on one fresh thread. Since the seeded round 7 also: perfect binomial trees meeting slightly smaller components (built in both orders, united in both argument orders, no lookups).",
+               "recursion depth matters. Since the seeded rounds 3-4 also: sleeper histories (a vertex looked up, exactly 2^8 / 2^16 (+-1) unions / resets that never mention it or its residue class mod 8, looked up again), clone_from between structures of different sizes, small components at both ends of the index range up to n = 1.5 million, reset to large sizes. Since the seeded rounds 5-6 also: absorb-after-lookup, repeated resets, five construction routes for every adversarial order (new, reset from one element, growth inside spare capacity, shrinking, reset after use), size / check on the deepest never-looked-up elements before any lookup, ladders of ~30 constructions with climbing sizes on one fresh thread. Since the seeded round 7 also: perfect binomial trees meeting slightly smaller components (built in both orders, united in both argument orders, no lookups). Since the seeded round 8 also: the binomial order at n = 600 000 .. 1 500 000 (components of 2^16 .. 2^18 elements), size variant / construction order / argument order rotated by seed.",
     level_note="Trusted: the relabelling model and the compression-free union-find used above 4096 elements; the hook only "
                "exposes the parent and size arrays read-only. The depth bound is checked on the orders driven, not for all "
                "orders. Process death (stack exhaustion) counts as a violation for this property.",
@@ -336,7 +338,7 @@ prop(
                "must panic for index / index_mut / get_index, constructors must reject zero extents and wrong lengths, "
                "write produces the separator grammar and reads back equal for all 12 integer types and strings, and "
                "equality is checked for single-element differences and for equal data under every different shape of the "
-               "same rank and size. Since the seeded rounds 3-4 also: indices 2^e + j that wrap a power-of-two stride, clone_from across shapes, Iterator-call scripts on iter / into_iter, writes behind pending output that ends at the buffer edge. Since the seeded rounds 5-6 also: digit-structured integers (interior groups of zeros and nines), NaN and zero-sized elements under ==, double-ended iterator scripts, control bytes in strings, stream boundary checks. Since the seeded round 7 also: streams of 5..11 large tensors (hundreds of kilobytes, the text ending with the last digit) through one writer and one reader fed in large and in shrinking pieces.",
+               "same rank and size. Since the seeded rounds 3-4 also: indices 2^e + j that wrap a power-of-two stride, clone_from across shapes, Iterator-call scripts on iter / into_iter, writes behind pending output that ends at the buffer edge. Since the seeded rounds 5-6 also: digit-structured integers (interior groups of zeros and nines), NaN and zero-sized elements under ==, double-ended iterator scripts, control bytes in strings, stream boundary checks. Since the seeded round 7 also: streams of 5..11 large tensors (hundreds of kilobytes, the text ending with the last digit) through one writer and one reader fed in large and in shrinking pieces. Since the seeded round 8 also: NUL bytes inside string tokens, one string element longer than the writer's and reader's buffer in the middle of a tensor.",
     level_note="Trusted: the engine's Horner offset and odometer, catch_unwind observation of panics. Ranks above 4 and extents "
                "above 5 (7 in thorough) are not enumerated.",
     runs=[
@@ -428,7 +430,7 @@ prop(
                "arbitrary angles, and sweeps at signed margins 0, 1e-13 ... 1 around d=r, d=r1+r2, d=|r1-r2| for radius "
                "ratios 1..1e5 under random rotation and translation. Every reported point must be within 1e-7 of both "
                "primitives (distance to a line computed from its definition, not from the library's normalised "
-               "coefficients); the kind is asserted only at margin 0, |margin|<=1e-10 or |margin|>=1e-8 (gray in between). Since the seeded rounds 3-4 also: lines given by nearly-unit coefficient normals, very large against very small circles near tangency (which uncovered the defect repaired by 01362a5), nearly equal radii at inner tangency, lines cutting a circle next to its centre. Since the seeded rounds 5-6 also: axis-aligned configurations, crossings next to lattice points, line pairs within 1e-9 rad of perpendicular far from the origin, the intersection results consumed from both ends (double-ended iterator scripts). Since the seeded round 7 also: directions on and within a few 1e-6 rad of the axes and diagonals with margins of a few 1e-6 of the radius (real and lattice), crossing circles whose radii agree to a relative 1e-9.",
+               "coefficients); the kind is asserted only at margin 0, |margin|<=1e-10 or |margin|>=1e-8 (gray in between). Since the seeded rounds 3-4 also: lines given by nearly-unit coefficient normals, very large against very small circles near tangency (which uncovered the defect repaired by 01362a5), nearly equal radii at inner tangency, lines cutting a circle next to its centre. Since the seeded rounds 5-6 also: axis-aligned configurations, crossings next to lattice points, line pairs within 1e-9 rad of perpendicular far from the origin, the intersection results consumed from both ends (double-ended iterator scripts). Since the seeded round 7 also: directions on and within a few 1e-6 rad of the axes and diagonals with margins of a few 1e-6 of the radius (real and lattice), crossing circles whose radii agree to a relative 1e-9. Since the seeded round 8 also: configurations almost but not exactly axis-aligned (one component of every direction 1e-9 .. 3e-5 of the other).",
     level_note="Trusted: the harness's exact integer classification and f64 margins (error ~1e-13 for magnitudes <= 1e3, two "
                "orders below the guard band). Circle::position is asserted only where the absolute and the relative reading "
                "of the tolerance agree. Coordinates of reported points stay within +-1e3.",
@@ -493,12 +495,15 @@ prop(
                "7-byte, BUF/3, all-but-one accepts, Interrupted densities up to 50 %); every value of the 8- and 16-bit "
                "integer types and the 10^k / 2^k / MIN / MAX neighbourhoods of the wider ones against std formatting; "
                "strings around BUF; random sequences of 50-400 pieces against hostile sinks; drop without flush; and the "
-               "produced text read back with the real Reader. Run in release (buffered path) and dev (flush-per-write path). Since the seeded rounds 3-4 also: digit-group boundary values anchored at every width's maximum, several writers alive at once, writers dropped by unwinding, sinks with a native write_vectored. Since the seeded rounds 5-6 also: interrupt bursts up to 65536, vectors of 65535..131073 elements, macro arguments with side effects (each argument expression evaluated exactly once), items that render to no bytes inside vectors and tuples. Since the seeded round 7 also: a writer that changes places with another one between writes (mem::swap), a sink that renders integers with a second Writer while it handles a call.",
+               "produced text read back with the real Reader. Run in release (buffered path) and dev (flush-per-write path). Since the seeded rounds 3-4 also: digit-group boundary values anchored at every width's maximum, several writers alive at once, writers dropped by unwinding, sinks with a native write_vectored. Since the seeded rounds 5-6 also: interrupt bursts up to 65536, vectors of 65535..131073 elements, macro arguments with side effects (each argument expression evaluated exactly once), items that render to no bytes inside vectors and tuples. Since the seeded round 7 also: a writer that changes places with another one between writes (mem::swap), a sink that renders integers with a second Writer while it handles a call. Since the seeded round 8 also: values entering through the public trait method Writable::write(&value, &mut writer) followed by write_char, more than 2^32 bytes through one writer against a pattern-checking sink (both profiles).",
     level_note="Trusted: the scripted sink (never accepts 0 bytes of a non-empty buffer), std Display as the rendering "
                "reference, the pending-byte hook. The read-back avoids Interrupted and lone CR (C08's subject).",
     runs=[
         dict(engine="writemon", profile="release", args=[], group="all"),
         dict(engine="writemon", profile="dev", args=[], group="all", label="writemon/dev (flush-per-write path)"),
+        dict(engine="writemon", profile="release", args=["--mode", "volume"], group="volume",
+             label="writemon/release/volume (more than 2^32 bytes through one writer, pattern-checking sink)"),
+        dict(engine="writemon", profile="dev", args=["--mode", "volume"], group="volume", label="writemon/dev/volume"),
         dict(engine="readmon", profile="release", args=["--mode", "interleaved-writers"], group="interleaved",
              label="readmon(interleaved-writers)/release: 2-3 writers alive at once, writes interleaved, partial + interrupted sink"),
         dict(engine="readmon", profile="dev", args=["--mode", "interleaved-writers", "--cases", "8000"], group="interleaved",
@@ -589,7 +594,7 @@ prop(
                "patterns, huge/tiny exponents, infinities, NaN) under + - * / and their assigning forms, min, max, "
                "all six relations and partial_cmp; negation, abs and both conversions for every element; 25 000 random "
                "bit-pattern pairs and 20 000 chains of depth 2-4 whose intermediates need all 64 significand bits "
-               "(x10 in thorough). Natively only: Miri cannot execute inline assembly and valgrind emulates x87 with 64-bit doubles. Since the seeded rounds 3-4 also: single doublings across the overflow / underflow thresholds, sums with exponent gaps 60..68 around every half-ulp boundary. Since the seeded rounds 5-6 also: aliased operands, the integers -130..1030, relations on operands handed by value to non-inlined functions, f80_init() executed first with the x87 control word compared before and after. Since the seeded round 7 also: first conversions of fresh threads (sentinel-like bit patterns, NaN payloads), round-trip conversions on eight threads at once.",
+               "(x10 in thorough). Natively only: Miri cannot execute inline assembly and valgrind emulates x87 with 64-bit doubles. Since the seeded rounds 3-4 also: single doublings across the overflow / underflow thresholds, sums with exponent gaps 60..68 around every half-ulp boundary. Since the seeded rounds 5-6 also: aliased operands, the integers -130..1030, relations on operands handed by value to non-inlined functions, f80_init() executed first with the x87 control word compared before and after. Since the seeded round 7 also: first conversions of fresh threads (sentinel-like bit patterns, NaN payloads), round-trip conversions on eight threads at once. Since the seeded round 8 also: runs of six operations with one and the same divisor / factor / addend, integer operands around 2^31, 2^32 and sqrt(2^63) with their products.",
     level_note="Trusted: the Python oracle (exact big-integer arithmetic) and the assumption, checked at start-up, that the x87 "
                "control word selects extended precision and round-to-nearest. Zero results of + - * / and negation must carry "
                "the IEEE sign. Not judged because the property speaks about values there: the sign of a zero returned by "
@@ -621,7 +626,7 @@ prop(
                "several times on borrows of different lifetimes, call name equal to a capture's or an argument's name) plus a "
                "28-shape sub-grid recursing 1.3 million frames deep = 2988 generated functions, compiled with the real macro "
                "twice (debug assertions off and on in the expanding crate) and executed on 6 inputs each; a compile error is mapped back to the shape it points into and reported as a violation of "
-               "'compiles'. Since the seeded rounds 5-6 also: literal recursive-call arguments, 4.5 million early returns, capture types that are unsized ([u64] and str, also behind &mut), Cell behind a shared capture and Rc. Since the seeded round 7 also: the capture type Vec<&str> (a lifetime hidden in the type), a return type &u64 borrowed from the single shared capture.",
+               "'compiles'. Since the seeded rounds 5-6 also: literal recursive-call arguments, 4.5 million early returns, capture types that are unsized ([u64] and str, also behind &mut), Cell behind a shared capture and Rc. Since the seeded round 7 also: the capture type Vec<&str> (a lifetime hidden in the type), a return type &u64 borrowed from the single shared capture. Since the seeded round 8 also: items declared inside the function that contains the invocation (const, fn, struct) used by the body.",
     level_note="Trusted: the generator's hand-written twin (same body text with the macro call replaced by a direct call "
                "passing the captures along). A compile failure that cannot be mapped into a generated shape is "
                "inconclusive. Shapes beyond 4 captures / 4 arguments and capture types with lifetimes are not generated.",
